@@ -114,6 +114,27 @@ def add_insertion_codes(draw, ch):
     Half of the inserted residues repeat the NAME of their predecessor (SER 20, SER 20A): number
     and name equal, only the code differs."""
     n = len(ch["seq"])
+    style = draw(st.sampled_from(["codes", "codes", "inserted-domain", "descending-codes"])) if n >= 3 else "codes"
+    if style == "inserted-domain":
+        # residue numbers that do not ascend along the chain: an inserted domain keeps its own numbering
+        a = draw(st.integers(1, n - 2))
+        b = draw(st.integers(a + 1, n - 1))
+        base = ch["start"] if ch["start"] + n + 1000 <= 9999 else 1
+        nums, j = [], 0
+        for i in range(n):
+            if a <= i < b:
+                nums.append(base + 1000 + (i - a))
+            else:
+                nums.append(base + j)
+                j += 1
+        ch["nums"], ch["icodes"] = nums, [" "] * n
+        return ch
+    if style == "descending-codes":
+        # insertion codes written in descending order before the plain number (1C 1B 1A 1 2 ...)
+        k = draw(st.integers(1, min(3, n - 1)))
+        nums = [ch["start"]] * (k + 1) + [ch["start"] + 1 + i for i in range(n - k - 1)]
+        ch["nums"], ch["icodes"] = nums, ["CBA"[3 - k + i] for i in range(k)] + [" "] * (n - k)
+        return ch
     nums, codes, k = [], [], 0
     for i in range(n):
         if i > 0 and draw(st.booleans()):
